@@ -2,6 +2,7 @@ import Driver.Proto
 import PdtVerif.Model.CommandLine
 import PdtVerif.Model.CommandLineTimed
 import PdtVerif.Model.CommandLineCosts
+import PdtVerif.Model.CommandLineEos
 import PdtVerif.Spec.Levenshtein
 /-! Driver for C17: command-level models of `command_line.py`. Names travel as JSON strings
 and are handled as `List Char`; exact numbers as "n/d". -/
@@ -174,7 +175,8 @@ def unitLev (r h : List Nat) : Nat :=
   (PdtVerif.Lev.lev PdtVerif.Lev.unitCosts r h).floor.toNat
 
 /-- case: {refs, hyps: [[utt,[tok..]]..] (sorted by utt as loaded), replace: [[a,b]..],
-ignore: [..], warn, distances, per_utt, batch, table: [[[r ids],[h ids],edits]..] | null}.
+ignore: [..], warn, distances, per_utt, batch, table: [[[r ids],[h ids],edits]..] | null}. Tokens are
+strings (the numeral of a stored id of either sign, or its --id2token spelling).
 `table` = what `error_rate` returned for each interned pair in the observed run, re-derived
 pair by pair by the harness; without it (unit costs) the edit count is the Levenshtein
 distance. -/
@@ -233,7 +235,14 @@ def c17Er : Handler := fun c => do
     | some cs =>
       [("fixed_costs", erOutJ (erFromDirs ltName (erC02 cs) rep ign warn dist perUtt false batch refs hyps)),
        ("batch1_costs", erOutJ (erFromDirs ltName (erC02 cs) rep ign warn dist perUtt false 1 refs hyps))]
+  -- the (ref, hyp) tensors of every call of `error_rate`, column by column: renumbered ids, eos -1,
+  -- padding -2 (`Model/CommandLineEos.lean`; C17_er_tensor_read is about these)
+  let tensorsJ : Json := match common with
+    | none => Json.null
+    | some _ => listJ (fun (rh : List (List Int) × List (List Int)) =>
+        Json.arr #[listJ (listJ intJ) rh.1, listJ (listJ intJ) rh.2]) (allTensors batch prepped)
   pure (objJ (costsJ ++ [("pinned", erOutJ pinned), ("fixed", erOutJ fixed), ("batch1", erOutJ one),
+    ("tensors", tensorsJ),
     ("prepped", listJ (fun (u, r, h) => Json.arr #[nameJ u, listJ strJ r, listJ strJ h]) prepped),
     ("unit", boolJ table.isNone)]))
 
